@@ -26,12 +26,12 @@ def lattices(tier):
     if tier == "quick":
         main = S.lattice_consts(steps=(1, 4, 6), data=(0, 1, 2, 3, 5), coord=(0, 1, 2, 3, 5), vel=(0, 1, 2, 3, 5), force=(0, 2, 3, 7),
                                 xyz=(0, 2, 3), ckpt=(0, 2), prnt=(0, 1, 3))
-        resumed = S.lattice_consts(steps=(5,), data=(0, 1, 2, 3), coord=(0, 1, 2, 3), vel=(0, 2, 3), force=(0, 3), xyz=(0, 1, 2), ckpt=(2, 3), prnt=(1,))
+        resumed = S.lattice_consts(steps=(5,), data=(0, 1, 2, 3), coord=(0, 1, 2, 3), vel=(0, 2, 3), force=(0, 3), xyz=(0, 1, 2), ckpt=(2, 3), prnt=(1, 3))
         tdm = S.lattice_consts(steps=(6,), data=(1, 2, 3), coord=(0,), vel=(0,), force=(0,), tdm=(0, 1, 2, 3, 4), xyz=(0,), ckpt=(0, 2), prnt=(1,))
     else:
         main = S.lattice_consts(steps=(1, 2, 3, 4, 5, 6), data=(0, 1, 2, 3, 5, 7), coord=(0, 1, 2, 3, 5, 7), vel=(0, 1, 2, 3, 5, 7), force=(0, 1, 2, 3, 5, 7),
                                 xyz=(0, 1, 2, 3, 7), ckpt=(0, 2, 3), prnt=(0, 1, 3))
-        resumed = S.lattice_consts(steps=(3, 5, 6), data=(0, 1, 2, 3, 5), coord=(0, 1, 2, 3), vel=(0, 1, 2, 3), force=(0, 2, 3), xyz=(0, 1, 2, 3), ckpt=(1, 2, 3, 4), prnt=(1,))
+        resumed = S.lattice_consts(steps=(3, 5, 6), data=(0, 1, 2, 3, 5), coord=(0, 1, 2, 3), vel=(0, 1, 2, 3), force=(0, 2, 3), xyz=(0, 1, 2, 3), ckpt=(1, 2, 3, 4), prnt=(0, 1, 3))
         tdm = S.lattice_consts(steps=(4, 6, 7), data=(1, 2, 3), coord=(0, 2), vel=(0,), force=(0,), tdm=(0, 1, 2, 3, 4, 5), xyz=(0,), ckpt=(0, 2, 3), prnt=(1,))
     return main, resumed, tdm
 
@@ -90,6 +90,14 @@ def main(tier):
             dict(steps=6, cad=dict(data=5, coordinates=3, velocities=2, forces=7, na=0, tdm=0), xyz=3, ckpt=2, print=3),
             dict(steps=4, cad=dict(data=0, coordinates=0, velocities=3, forces=0, na=0, tdm=0), xyz=0, ckpt=0, print=0),
             dict(steps=6, cad=dict(data=2, coordinates=0, velocities=0, forces=2, na=0, tdm=0), xyz=0, ckpt=0, print=1),
+            # XYZ (and screen) only: no HDF5 stream at all
+            dict(steps=6, cad=dict(data=0, coordinates=0, velocities=0, forces=0, na=0, tdm=0), xyz=2, ckpt=0, print=1),
+            dict(steps=5, cad=dict(data=0, coordinates=0, velocities=0, forces=0, na=0, tdm=0), xyz=1, ckpt=0, print=0),
+        ]
+        forced_resumed = [
+            dict(steps=6, cad=dict(data=2, coordinates=3, velocities=0, forces=0, na=0, tdm=0), xyz=2, ckpt=2, print=3),
+            dict(steps=7, cad=dict(data=0, coordinates=0, velocities=0, forces=0, na=0, tdm=0), xyz=3, ckpt=4, print=0),
+            dict(steps=7, cad=dict(data=1, coordinates=0, velocities=2, forces=0, na=0, tdm=0), xyz=0, ckpt=4, print=3),
         ]
         jobs = []
         for n, cfg in enumerate(forced + pick):
@@ -100,6 +108,8 @@ def main(tier):
             var = VARIANTS[(n * 2 + 1) % len(VARIANTS)]
             kind = "soft" if n % 2 == 0 else "hard"
             jobs.append((S.case_from_cfg(cfg, **var), [["next", cfg["ckpt"] - 1, kind]]))
+        for n, cfg in enumerate(forced_resumed):
+            jobs.append((S.case_from_cfg(cfg, **VARIANTS[(3 * n) % len(VARIANTS)]), [["next", cfg["ckpt"] - 1, "soft"]]))
         # TDM is not one of the streams C11 lists; fresh runs are replayed here as coded (rows where both
         # /data and the TDM cadence are due); resumed TDM runs belong to C10.
         for n, cfg in enumerate(S.sample(rng, [c for c in cfgs_tdm if c["cad"]["tdm"] > 0], n_tdm)):
@@ -107,7 +117,8 @@ def main(tier):
         # nonadiabatic stream: real surface-hopping runs (real excited states), fresh and resumed, cadences that do not divide
         # the run length / the checkpoint step
         fssh = {"excited_states": {"n_states": 2, "method": "cis"}, "scf_eps": 1.0e-9}
-        na_cfgs = [dict(steps=6, cad=dict(data=1, coordinates=2, velocities=0, forces=0, na=3, tdm=0), xyz=0, ckpt=2, print=1),
+        na_cfgs = [dict(steps=5, cad=dict(data=0, coordinates=0, velocities=0, forces=0, na=2, tdm=0), xyz=0, ckpt=2, print=1),      # the nonadiabatic stream alone
+                   dict(steps=6, cad=dict(data=1, coordinates=2, velocities=0, forces=0, na=3, tdm=0), xyz=0, ckpt=2, print=1),
                    dict(steps=5, cad=dict(data=2, coordinates=0, velocities=1, forces=0, na=2, tdm=0), xyz=2, ckpt=3, print=0)]
         if tier != "quick":
             na_cfgs += [dict(steps=7, cad=dict(data=3, coordinates=1, velocities=0, forces=2, na=na, tdm=0), xyz=0, ckpt=ck, print=1) for na in (1, 2, 3, 4, 5) for ck in (2, 3)]
